@@ -319,3 +319,51 @@ def run_p10_p11(chk, repo):
                               witness="$OMEGA 0.25 (0.16)x3, fix only OMEGA_3_3: the text is unchanged and FIX is lost")
     if n11 == 0:
         raise AnalysisError('P11: per-member collection followed by an equality test not found in OmegaRecord.update')
+
+
+def theta_cursor(chk, rule, repo):
+    """a theta written (low,init)xN stands for N parameters: the cursor into the record's parameters must advance by N"""
+    tm = repo.module('pharmpy.model.external.nonmem.records.theta_record')
+    cls = tm.classes.get('ThetaRecord')
+    f = cls.methods.get('update') if cls else None
+    if f is None:
+        raise AnalysisError('ThetaRecord.update not found')
+    params = [p for p in f.params if p != 'self']
+    if not params:
+        raise AnalysisError('ThetaRecord.update: parameter list argument not found')
+    plist = params[0]
+    # the code that consumes the parameters: update itself, its nested functions and module helpers it hands them to
+    scope = [f.node] + [g.node for g in tm.functions.values() if g.cls is None and g.parent is None
+                        and any(isinstance(c, ast.Call) and dotted(c.func) == g.name for c in ast.walk(f.node))]
+    uses = [s_ for fn_ in scope for s_ in ast.walk(fn_) if isinstance(s_, ast.Subscript) and isinstance(s_.value, ast.Name)
+            and s_.value.id == plist and isinstance(s_.ctx, ast.Load)]
+    one_by_one = [c for fn_ in scope for c in ast.walk(fn_) if isinstance(c, ast.Call) and dotted(c.func) in ('next', 'iter')
+                  and c.args and any(isinstance(x, ast.Name) and x.id == plist for x in ast.walk(c.args[0]))]
+    one_by_one += [l_ for fn_ in scope for l_ in ast.walk(fn_) if isinstance(l_, ast.For)
+                   and any(isinstance(x, ast.Name) and x.id == plist for x in ast.walk(l_.iter))
+                   and not any(isinstance(c, ast.Call) and 'multiple' in (dotted(c.func) or '') for c in ast.walk(l_))]
+    if not uses and not one_by_one:
+        raise AnalysisError('ThetaRecord.update: consumption of the parameters not recognised')
+    ok = False
+    desc = 'parameters taken one per theta node (iterator)'
+    for u in uses:
+        cursors = {x.id for x in ast.walk(u.slice) if isinstance(x, ast.Name)}
+        for fn_ in scope:
+            for a in ast.walk(fn_):
+                if isinstance(a, ast.AugAssign) and isinstance(a.op, ast.Add) and isinstance(a.target, ast.Name) \
+                        and a.target.id in cursors:
+                    names_ = {x.id for x in ast.walk(a.value) if isinstance(x, ast.Name)}
+                    calls_ = {dotted(c.func) or '' for c in ast.walk(a.value) if isinstance(c, ast.Call)}
+                    defs = [s_.value for s_ in ast.walk(fn_) if isinstance(s_, ast.Assign) and isinstance(s_.targets[0], ast.Name)
+                            and s_.targets[0].id in names_]
+                    calls_ |= {dotted(c.func) or '' for d in defs for c in ast.walk(d) if isinstance(c, ast.Call)}
+                    desc = f'{unparse(u)} with {unparse(a)}'
+                    if any('multiple' in c for c in calls_):
+                        ok = True
+    chk.instance(rule, f'ThetaRecord.update: {desc}: advances by the repeat count: {ok}')
+    if not ok:
+        chk.violation(rule, tm.rel, f.qualname, desc,
+                      'a theta written (low,init)xN stands for N parameters; the cursor into the parameters advances by one '
+                      'per node, so every theta after an xN item is updated from the wrong parameter', line=f.node.lineno,
+                      witness='$THETA (0,0.5)x3 (1,7,20) -2.25: update_source of the unmodified model rewrites the last two '
+                              'thetas with the values of the replicates')
